@@ -138,6 +138,9 @@ def values_corruptions():
     def bb_sub(e):
         e["subs"][1], e["subs"][2] = e["subs"][2], e["subs"][1]
 
+    def bb_fmt(e):
+        e["pretty"][16] = 88 if e["pretty"][16] == 46 else 46      # a8 drawn the other way
+
     def pm_len(e):
         e["len"] += 1
 
@@ -169,6 +172,7 @@ def values_corruptions():
         ("bitboard union lost a square", "bb_op", lambda e: len(e["or"]["v"]) > 0, bb_or, "C18"),
         ("bitboard iteration order reversed", "bb_iter", lambda e: len(e["seq"]) > 1, bb_iter, "C18"),
         ("two subsets swapped in subset iteration", "bb_subsets", lambda e: len(e["subs"]) > 3, bb_sub, "C18"),
+        ("Debug board text shows a8 the other way", "bb_fmt", lambda e: e["k"] == "ok", bb_fmt, "EXT"),
         ("PieceMoves::len off by one", "pm", lambda e: e["k"] == "ok", pm_len, "C17"),
         ("PieceMoves::has accepts a king promotion", "pm", lambda e: len(e["to"]) > 0, pm_has, "C17"),
         ("one move yielded twice, another not at all", "pm", lambda e: e["k"] == "ok" and len(e["seq"]) > 1, pm_dup, "C17"),
